@@ -122,7 +122,15 @@ func (t *tr) ev(e ast.Expr) Term {
 			ch := t.ev(x.X)
 			_ = ch
 			ct := t.typeOf(x.X).Underlying().(*types.Chan)
-			return t.havocTerm("recv", ct.Elem())
+			rv := t.havocTerm("recv", ct.Elem())
+			t.noteCtxDone(x.X)
+			if t.u.Contract != nil && t.u.Contract.Flags["chan_nonnil"] == "true" {
+				if _, isPtr := ct.Elem().Underlying().(*types.Pointer); isPtr {
+					t.assume(neq(rv, intLit(0)))
+					t.V.note("flag chan_nonnil on " + t.u.Key + ": pointers received from channels are assumed non-nil")
+				}
+			}
+			return rv
 		}
 	case *ast.StarExpr:
 		p := t.ev(x.X)
@@ -513,6 +521,7 @@ func (t *tr) evCompositeLit(x *ast.CompositeLit, T types.Type) Term {
 		return r
 	case *types.Slice:
 		es := W.sortOf(u.Elem())
+		eT := types.Type(u.Elem())
 		n := int64(0)
 		idx := int64(0)
 		type el struct {
@@ -536,7 +545,7 @@ func (t *tr) evCompositeLit(x *ast.CompositeLit, T types.Type) Term {
 			}
 		}
 		arr := t.alloc()
-		h := t.elemHeap(es)
+		h := t.elemHeapT(eT, es)
 		contents := Term{S: fmt.Sprintf("((as const %s) %s)", arrSort(SInt, es), W.zeroOfSort(es, u.Elem()).S), Sort: arrSort(SInt, es)}
 		for _, e := range els {
 			contents = store(contents, intLit(e.i), e.v)
@@ -629,4 +638,31 @@ func (t *tr) coerceTo(v Term, from, T types.Type, pos token.Pos) Term {
 
 func exprString(e ast.Expr) string {
 	return types.ExprString(e)
+}
+
+// noteCtxDone: a completed receive from ctx.Done() means ctx is done from now on (see trusted/exec.contracts).
+func (t *tr) noteCtxDone(ch ast.Expr) {
+	call, ok := ast.Unparen(ch).(*ast.CallExpr)
+	if !ok {
+		return
+	}
+	se, ok := call.Fun.(*ast.SelectorExpr)
+	if !ok || se.Sel.Name != "Done" || len(call.Args) != 0 {
+		return
+	}
+	rt := t.typeOf(se.X)
+	if rt == nil || typeKey(rt) != "context.Context" {
+		return
+	}
+	d, ok := t.V.ghostVars["ctxClock"]
+	sf, ok2 := t.V.CS.SpecFuncs["ctxDoneAt"]
+	if !ok || !ok2 || t.cur == nil {
+		return
+	}
+	_ = sf
+	clock := t.ghostVar(d)
+	ctx := t.ev(se.X)
+	t.assign(clock, add(t.read(clock), intLit(1)))
+	t.V.W.declFun("sf$ctxDoneAt", []string{SInt, SInt}, SBool)
+	t.assume(app("sf$ctxDoneAt", SBool, ctx, t.read(clock)))
 }
